@@ -1000,16 +1000,29 @@ static int rtr_update_spki_table(struct rtr_socket *rtr_socket, struct spki_tabl
 }
 
 /*
- * @brief Checks that the prefix length and the max length of a Prefix PDU fit the address family.
- * Larger values would be used as bit counts by the prefix table.
+ * @brief Checks the prefix of a Prefix PDU (in host byte order): the prefix length and the max length fit the
+ * address family and no bit behind the prefix length is set.
+ * Larger lengths would be used as bit counts by the prefix table. Prefixes that differ only in bits behind their
+ * length would be kept as distinct trie nodes, which can be chained deeper than the trie has address bits to branch on.
  */
-static bool rtr_prefix_pdu_lengths_valid(const void *pdu, const enum pdu_type type)
+static bool rtr_prefix_pdu_is_valid(const void *pdu, const enum pdu_type type)
 {
-	// both prefix PDU types have the length fields at the same position
-	const struct pdu_ipv4 *prefix_pdu = pdu;
-	const uint8_t addr_bits = (type == IPV4_PREFIX) ? 32 : 128;
+	// both prefix PDU types have the length fields and the first word of the prefix at the same position
+	const struct pdu_ipv6 *prefix_pdu = pdu;
+	const unsigned int words = (type == IPV4_PREFIX) ? 1 : 4;
+	const uint8_t addr_bits = 32 * words;
 
-	return prefix_pdu->prefix_len <= addr_bits && prefix_pdu->max_prefix_len <= addr_bits;
+	if (prefix_pdu->prefix_len > addr_bits || prefix_pdu->max_prefix_len > addr_bits)
+		return false;
+
+	for (unsigned int i = 0; i < words; i++) {
+		// number of bits of this word that belong to the prefix
+		const unsigned int used = prefix_pdu->prefix_len > 32 * i ? prefix_pdu->prefix_len - 32 * i : 0;
+
+		if (used < 32 && (prefix_pdu->prefix[i] & (UINT32_MAX >> used)) != 0)
+			return false;
+	}
+	return true;
 }
 
 void recv_loop_cleanup(void *p)
@@ -1065,8 +1078,8 @@ static int rtr_sync_receive_and_store_pdus(struct rtr_socket *rtr_socket)
 		}
 
 		type = rtr_get_pdu_type(pdu);
-		if ((type == IPV4_PREFIX || type == IPV6_PREFIX) && !rtr_prefix_pdu_lengths_valid(pdu, type)) {
-			const char txt[] = "Prefix PDU with a prefix length exceeding the address size received";
+		if ((type == IPV4_PREFIX || type == IPV6_PREFIX) && !rtr_prefix_pdu_is_valid(pdu, type)) {
+			const char txt[] = "Prefix PDU with an invalid prefix length or bits set beyond it received";
 
 			RTR_DBG("%s", txt);
 			rtr_send_error_pdu_from_host(rtr_socket, pdu, ((struct pdu_header *)pdu)->len, CORRUPT_DATA, txt,
